@@ -7,11 +7,13 @@ import (
 
 // JudgeKeepAlive evaluates the keep-alive clauses of the statement on what the two real engines did, for each
 // logged-on period of each side, from the stamped wire log (virtual time, exact):
-//   R1 a TestRequest handed to X is answered by X's Heartbeat carrying its TestReqID (as soon as X's goroutine is free)
-//   R2 X lets no heartbeat interval pass without transmitting, unless its own TestRequest is unanswered
-//   R3 when X has been handed nothing for 1.2 intervals it transmits a TestRequest at that instant, and only then
-//   R4 after another 1.2 silent intervals X ends the connection and tells its application; X never ends it otherwise
-//   R5 anything handed to X in between cancels the pending disconnect
+//
+//	R1 a TestRequest handed to X is answered by X's Heartbeat carrying its TestReqID (as soon as X's goroutine is free)
+//	R2 X lets no heartbeat interval pass without transmitting, unless its own TestRequest is unanswered
+//	R3 when X has been handed nothing for 1.2 intervals it transmits a TestRequest at that instant, and only then
+//	R4 after another 1.2 silent intervals X ends the connection and tells its application; X never ends it otherwise
+//	R5 anything handed to X in between cancels the pending disconnect
+//
 // A deadline that falls while X's goroutine is inside an application callback moves to the end of that callback.
 func (s *Sys) JudgeKeepAlive(end time.Duration) (rule, what string) {
 	for _, isI := range []bool{true, false} {
